@@ -34,6 +34,7 @@ namespace gx
         int in[3]{-1, -1, -1};  // statement indices; inside a body: -1 = boundary a, -2 = boundary b (encoded as 'A','B')
         int k{0};               // scalar / body id
         int id{-1};             // logging id; -1 = derive from position
+        unsigned pmask{0};      // bit j set = input j is wired through the passive(port) marker
     };
 
     struct Program
@@ -70,6 +71,8 @@ namespace gx
                 if (s.in[j] == -1) o << "A"; else if (s.in[j] == -2) o << "B"; else o << s.in[j];
             }
             if (s.k != 0) o << "k" << s.k;
+            if (s.pmask != 0) o << "q" << s.pmask;
+            if (s.id >= 0) o << "j" << s.id;
         }
         if (!p.order.empty())
         {
@@ -90,7 +93,7 @@ namespace gx
             s.kind = static_cast<Kind>(t.at(0));
             std::size_t j = 1;
             int ni = 0;
-            while (j < t.size() && t[j] != 'k')
+            while (j < t.size() && t[j] != 'k' && t[j] != 'j' && t[j] != 'q')
             {
                 if (t[j] == ',') { ++j; continue; }
                 if (t[j] == 'A') { s.in[ni++] = -1; ++j; continue; }
@@ -100,7 +103,22 @@ namespace gx
                 s.in[ni++] = std::stoi(t.substr(j, e - j));
                 j = e;
             }
-            if (j < t.size() && t[j] == 'k') s.k = std::stoi(t.substr(j + 1));
+            if (j < t.size() && t[j] == 'k')
+            {
+                std::size_t e = j + 1;
+                if (e < t.size() && t[e] == '-') ++e;
+                while (e < t.size() && std::isdigit(static_cast<unsigned char>(t[e]))) ++e;
+                s.k = std::stoi(t.substr(j + 1, e - j - 1));
+                j = e;
+            }
+            if (j < t.size() && t[j] == 'q')
+            {
+                std::size_t e = j + 1;
+                while (e < t.size() && std::isdigit(static_cast<unsigned char>(t[e]))) ++e;
+                s.pmask = static_cast<unsigned>(std::stoul(t.substr(j + 1, e - j - 1)));
+                j = e;
+            }
+            if (j < t.size() && t[j] == 'j') s.id = std::stoi(t.substr(j + 1));
             p.st.push_back(s);
         };
         std::string cur;
@@ -348,16 +366,20 @@ namespace gx
             const Stmt &s = p.st.at(static_cast<std::size_t>(idx));
             const Int id = Int{s.id >= 0 ? s.id : c.id_base + idx + 1};
             PortSlot &slot = slots[static_cast<std::size_t>(idx)];
+            auto ip = [&](int j) -> Port<TS<Int>> {
+                Port<TS<Int>> pt = int_port(s.in[j]);
+                return ((s.pmask >> j) & 1u) ? passive(pt) : pt;
+            };
             switch (s.kind)
             {
                 case SRC: slot.ip = wire<stdlib::replay_impl, TS<Int>>(c.w, Str{c.key_prefix + "s" + std::to_string(idx)}); break;
                 case BSRC: slot.bp = wire<stdlib::replay_impl, TS<Bool>>(c.w, Str{c.key_prefix + "c" + std::to_string(idx)}); break;
                 case TICK: slot.ip = wire<NTick>(c.w, Int{s.k}, id); break;
                 case ARG: slot.ip = int_port(s.in[0]); break;
-                case F1: slot.ip = wire<NF1>(c.w, int_port(s.in[0]), Int{s.k}, id); break;
-                case F2: slot.ip = wire<NF2>(c.w, int_port(s.in[0]), int_port(s.in[1]), Int{s.k}, id); break;
-                case F3: slot.ip = wire<NF3>(c.w, int_port(s.in[0]), int_port(s.in[1]), int_port(s.in[2]), Int{s.k}, id); break;
-                case ACC: slot.ip = wire<NAcc>(c.w, int_port(s.in[0]), id); break;
+                case F1: slot.ip = wire<NF1>(c.w, ip(0), Int{s.k}, id); break;
+                case F2: slot.ip = wire<NF2>(c.w, ip(0), ip(1), Int{s.k}, id); break;
+                case F3: slot.ip = wire<NF3>(c.w, ip(0), ip(1), ip(2), Int{s.k}, id); break;
+                case ACC: slot.ip = wire<NAcc>(c.w, ip(0), id); break;
                 case SUML: slot.ip = wire<NSumL>(c.w, stdlib::to_tsl<Pair>(c.w, int_port(s.in[0]), int_port(s.in[1])).template as<Pair>(), id); break;
                 case SUMB: slot.ip = wire<NSumB>(c.w, stdlib::to_tsb<PairB>(c.w, int_port(s.in[0]), int_port(s.in[1])), id); break;
                 case ITE: slot.ip = wire<stdlib::if_then_else>(c.w, bool_port(s.in[0]), int_port(s.in[1]), int_port(s.in[2])).template as<TS<Int>>(); break;
@@ -373,7 +395,7 @@ namespace gx
             for (std::size_t i = 0; i < n; ++i)
             {
                 if (slots[i].is_bool) continue;
-                const long sid = 9000 + c.id_base + static_cast<long>(i) + 1;
+                const long sid = 9000000 + (p.st[i].id >= 0 ? p.st[i].id : c.id_base + static_cast<long>(i) + 1);
                 wire<NSink>(c.w, slots[i].ip, Int{sid});
                 if (sink_ids) sink_ids->push_back(sid);
             }
@@ -524,7 +546,7 @@ namespace gx
                 case F1:
                 {
                     RIn x = in_of(s.in[0]);
-                    if (x.mod && x.valid)
+                    if (x.mod && x.valid && !(s.pmask & 1u))
                     {
                         Rec rc; rc.id = id; rc.t = t; rc.n = 1; rec_in(rc, 0, x); rc.out = x.v * 3 + s.k;
                         out.push_back(rc);
@@ -535,7 +557,7 @@ namespace gx
                 case F2:
                 {
                     RIn x = in_of(s.in[0]), y = in_of(s.in[1]);
-                    if ((x.mod || y.mod) && x.valid && y.valid)
+                    if (((x.mod && !(s.pmask & 1u)) || (y.mod && !(s.pmask & 2u))) && x.valid && y.valid)
                     {
                         Rec rc; rc.id = id; rc.t = t; rc.n = 2; rec_in(rc, 0, x); rec_in(rc, 1, y); rc.out = x.v * 7 + y.v * 13 + s.k;
                         out.push_back(rc);
@@ -546,7 +568,7 @@ namespace gx
                 case F3:
                 {
                     RIn x = in_of(s.in[0]), y = in_of(s.in[1]), z = in_of(s.in[2]);
-                    if ((x.mod || y.mod || z.mod) && x.valid && y.valid && z.valid)
+                    if (((x.mod && !(s.pmask & 1u)) || (y.mod && !(s.pmask & 2u)) || (z.mod && !(s.pmask & 4u))) && x.valid && y.valid && z.valid)
                     {
                         Rec rc; rc.id = id; rc.t = t; rc.n = 3; rec_in(rc, 0, x); rec_in(rc, 1, y); rec_in(rc, 2, z);
                         rc.out = x.v * 5 + y.v * 11 + z.v * 17 + s.k;
@@ -558,7 +580,7 @@ namespace gx
                 case ACC:
                 {
                     RIn x = in_of(s.in[0]);
-                    if (x.mod && x.valid)
+                    if (x.mod && x.valid && !(s.pmask & 1u))
                     {
                         r.acc += x.v;
                         Rec rc; rc.id = id; rc.t = t; rc.n = 1; rec_in(rc, 0, x); rc.out = r.acc;
@@ -644,7 +666,7 @@ namespace gx
                     if (is_bool_kind(p.st[i].kind)) continue;
                     if (st[i].mod && st[i].valid)
                     {
-                        Rec rc; rc.id = 9000 + static_cast<long>(i) + 1; rc.t = t; rc.n = 1; rc.valid[0] = true; rc.mod[0] = true; rc.v[0] = st[i].v; rc.out = 0;
+                        Rec rc; rc.id = 9000000 + (p.st[i].id >= 0 ? p.st[i].id : static_cast<long>(i) + 1); rc.t = t; rc.n = 1; rc.valid[0] = true; rc.mod[0] = true; rc.v[0] = st[i].v; rc.out = 0;
                         out.push_back(rc);
                     }
                 }
